@@ -18,6 +18,11 @@ pub(crate) mod vx {
     }
 }
 
+#[allow(dead_code, unused_imports, clippy::all)]
+pub(crate) mod c17 {
+    include!(concat!(env!("OSRG_RUSTYBGP_VERIF_DIR"), "/hd/c17.rs"));
+}
+
 #[test]
 fn verif_entry() {
     vx::report::quiet_panics();
@@ -37,6 +42,8 @@ fn verif_entry() {
         "c20" => crate::event::verif_event::c20::run(replay),
         "c19" => crate::event::verif_event::c19::run(replay),
         "c06tm" => crate::event::verif_event::c06::run(replay),
+        "c15live" => crate::event::verif_event::c15::run(replay),
+        "c17" => c17::run(replay),
         "c13" => crate::rpki::verif_rpki::run_c13(replay),
         "" => {
             eprintln!("verif_entry: VERIF_PART not set; nothing to do");
